@@ -401,6 +401,35 @@ def gen_ws(ctx, n_streams, exhaustive_upto, n_exh):
     return out
 
 
+def gen_ws_empty_runs(ctx, n_streams):
+    """long runs of frames without data in front of a message: `goto next_frame` in coap_ws_read is not bounded
+    (the model once stopped after 16 such frames in one read; the WS correspondence proof found it)"""
+    rng = ctx.rng
+    out = []
+    for i in range(n_streams):
+        mode = rng.choice(["c", "s"])
+        hs = W.handshake(mode, rng, 0)
+        masked = mode == "s"
+        frames = []
+        for blk in range(rng.choice([1, 1, 2])):
+            frames += [W.frame(b"", masked, lenform=rng.choice([None, None, None, 16, 64]),
+                               mask=G.rbytes(rng, 4) if masked else None)
+                       for _ in range(rng.choice([7, 14, 15, 16, 17, 18, 25, 40]))]
+            frames.append(ws_frame(rng, mode, ws_msg(rng, 0)))
+        body = b"".join(frames)
+        stream = hs + body
+        n, h = len(stream), len(hs)
+        segs = [[], [h], [h - 3], [h, h + 2 * rng.randrange(1, 20) + rng.randrange(2)], seg_random(rng, n),
+                sorted(set(rng.sample(range(h, n), min(n - h, 3))))]
+        seen = set()
+        for cs in segs:
+            cs = [c for c in cs if 0 < c < n]
+            if tuple(cs) not in seen:
+                seen.add(tuple(cs))
+                out.append(ws_line(mode, stream, cs))
+    return out
+
+
 def generate(ctx, escalate=False):
     if ctx.thorough():
         lines = gen_tcp(ctx, 6000, 40, 60) + gen_ws(ctx, 5000, 16, 80)
@@ -408,6 +437,7 @@ def generate(ctx, escalate=False):
         lines = gen_tcp(ctx, 1000, 22, 8) + gen_ws(ctx, 500, 12, 10)
     if escalate:
         lines += gen_tcp(ctx, 1500, 22, 8) + gen_ws(ctx, 600, 12, 10)
+    lines += gen_ws_empty_runs(ctx, 60 if ctx.thorough() else 12)
     ctx.cov["exhaustive"] = ("every 1-, 2- and 3-cut placement of %d TCP streams and of the frame part of %d WS streams"
                              % (ctx.cov.get("exhaustive_streams", 0), ctx.cov.get("ws_exhaustive_streams", 0)))
     return ["consts"] + gen_tcp_cap_boundary(ctx) + lines
